@@ -388,6 +388,7 @@ func init() {
 		Stub:        []string{"net.Listener (SimListener)", "net.Conn (SimConn)", "Backend/Session/LMTPSession (SimBackend)", "clock (synctest)", "SMTP client (raw driver)"},
 		Assumptions: []string{"acceptance of the message itself is not judged here (C06 does)", "go-smtp built with go1.26.8"},
 		Required:    []string{"unbuffered_network_long_message_backend_stops_reading_early", "bait_command_in_body", "terminator_lookalike_in_body", "message_over_limit_lmtp", "client_stalls_past_read_deadline_inside_message", "marker_shares_segment_with_end_marker", "backend_left_message_unread", "backend_panics_with_message_text_unread", "early_recipient_reply_cannot_be_written"},
+		Instr:       true,
 		QuickRuns:   300000, ThoroughRuns: 6000000,
 	})
 }
